@@ -80,6 +80,15 @@ def step (toks : List String) : String :=
     | some q =>
       let want := s!"{showBool (shouldDoLoopUpdate q)}{showBool (shouldDoClusterUpdate q)}"
       if (combos.splitOn ",").contains want then "ok" else s!"model-wants-{want}"
+  -- known finding F20 (non-ergodic interaction sets): the model's gate / loop flag for the call
+  -- list, and the number of off-diagonal single-site operators that can ever appear when the gate
+  -- is off (`gate_off_single_site_stays_diagonal`: 0); with the gate on the model predicts nothing
+  | ["nonergodic", _name, calls, _nseeds, _nsteps] =>
+    match buildQ "1" calls with
+    | none => "bad-calls"
+    | some q =>
+      let gate := shouldDoClusterUpdate q
+      s!"gate={showBool gate} loop={showBool (shouldDoLoopUpdate q)} od={if gate then "?" else "0"}"
   | _ => "bad-op"
 
 def main : IO Unit := run step
